@@ -387,3 +387,122 @@ pub fn run(opts: &Opts) -> i32 {
   println!("STATS {}", stats);
   if findings.is_empty() { 0 } else { 1 }
 }
+
+// ---------- replay of a recorded loop finding ----------
+//
+// The recorded answers ("resp@ts", as sent to the model) are played back to the real loop, each one not
+// before its recorded clock reading (so that the loop's own Instant::now() readings are comparable); the new
+// transcript is then compared with the loop model (LOOPCHK) and judged by the specification automaton (LOOPMON).
+
+pub struct ReplayEnv {
+  answers: VecDeque<(String, u64)>,
+  t0: Instant,
+  last_return: u64,
+  max_gap: u64,
+  calls: Vec<String>,
+  script: Vec<String>,
+  mismatch: Option<String>
+}
+
+impl ReplayEnv {
+  fn now_ns(&self) -> u64 { self.t0.elapsed().as_nanos() as u64 }
+  // returns the recorded answer for this call, or an error message if the recording has none / is of another type
+  fn next(&mut self, call: String, kind: char) -> Result<String, String> {
+    let t = self.now_ns();
+    if !self.calls.is_empty() { let gap = t.saturating_sub(self.last_return); if gap > self.max_gap { self.max_gap = gap; } }
+    self.calls.push(call.clone());
+    let (resp, ts) = match self.answers.pop_front() {
+      Some(a) => a,
+      None => { let m = "replay: end of the recorded answers".to_string(); self.leave(format!("e:{}", hex(&m))); return Err(m); }
+    };
+    // wait (bounded) until the recorded clock reading
+    let now = self.now_ns();
+    if ts > now { std::thread::sleep(Duration::from_nanos(std::cmp::min(ts - now, 2_000_000_000))); }
+    if resp.starts_with("e:") {
+      let bytes: Vec<u8> = (0..resp.len() / 2 - 1).filter_map(|i| u8::from_str_radix(&resp[2 + 2 * i..4 + 2 * i], 16).ok()).collect();
+      let m = String::from_utf8_lossy(&bytes).to_string();
+      self.leave(resp);
+      return Err(m);
+    }
+    let ok = match kind { 'u' => resp == "u", 'p' => resp.starts_with('p'), 'k' => resp.starts_with('k'), 't' => resp.starts_with('t'), _ => false };
+    if !ok {
+      let m = format!("replay: the implementation calls `{}` where the recording answered `{}`", call, resp);
+      self.mismatch = Some(m.clone());
+      self.leave(format!("e:{}", hex(&m)));
+      return Err(m);
+    }
+    self.leave(resp.clone());
+    Ok(resp)
+  }
+  fn leave(&mut self, resp: String) {
+    let t = self.now_ns();
+    self.last_return = t;
+    self.script.push(format!("{}@{}", resp, t));
+  }
+}
+
+impl ScriptedDriver for ReplayEnv {
+  fn register_poll(&mut self) -> Result<(), String> { self.next("reg".to_string(), 'u').map(|_| ()) }
+  fn poll(&mut self, timeout: Option<Duration>) -> Result<ScriptedPoll, String> {
+    let call = match timeout { None => "poll:-".to_string(), Some(d) => format!("poll:{}", d.as_nanos()) };
+    let r = self.next(call, 'p')?;
+    if r == "pI" { Ok(ScriptedPoll::Interrupted) }
+    else if r == "pT" { Ok(ScriptedPoll::TimedOut) }
+    else {
+      let devs = r[3..].split('.').filter(|x| !x.is_empty()).map(|x| if x == "k" { ScriptedDevice::Keyboard } else { ScriptedDevice::Tablet }).collect();
+      Ok(ScriptedPoll::DeviceEvent(devs))
+    }
+  }
+  fn next_keyboard(&mut self) -> Result<ScriptedNext<Event>, String> {
+    let r = self.next("nk".to_string(), 'k')?;
+    if r == "kB" { Ok(ScriptedNext::Busy) }
+    else if r == "kE" { Ok(ScriptedNext::End) }
+    else { match fmt::parse_event(&r[1..]) { Some(e) => Ok(ScriptedNext::One(e)), None => Err(format!("replay: bad event token {}", r)) } }
+  }
+  fn next_tablet(&mut self) -> Result<ScriptedNext<ScriptedTablet>, String> {
+    let r = self.next("nt".to_string(), 't')?;
+    if r == "tB" { Ok(ScriptedNext::Busy) }
+    else if r == "tE" { Ok(ScriptedNext::End) }
+    else { Ok(ScriptedNext::One(if r == "tOn" { ScriptedTablet::On } else { ScriptedTablet::Off })) }
+  }
+  fn send(&mut self, evs: &Vec<Event>) -> Result<(), String> { self.next(format!("send:{}", fmt::events(evs)), 'u').map(|_| ()) }
+}
+
+pub fn replay(opts: &Opts) -> i32 {
+  let path = match opts.get("file") { Some(p) => p, None => { eprintln!("--file required"); return 2; } };
+  let v: serde_json::Value = serde_json::from_str(&std::fs::read_to_string(path).expect("replay file")).expect("json");
+  let layout = fmt::parse_layout(v["layout"].as_str().expect("layout")).expect("layout text");
+  let answers: VecDeque<(String, u64)> = v["answers"].as_str().unwrap_or("").split(',').filter(|x| !x.is_empty() && *x != "-").map(|a| {
+    let mut it = a.rsplitn(2, '@');
+    let ts = it.next().unwrap().parse::<u64>().unwrap_or(0);
+    (it.next().unwrap_or("").to_string(), ts)
+  }).collect();
+  println!("layout: {}", fmt::layout(&layout));
+  println!("recorded: {} answers, status {}, what: {}", answers.len(), v["status"], v["what"]);
+  let mut env = ReplayEnv { answers, t0: Instant::now(), last_return: 0, max_gap: 0, calls: Vec::new(), script: Vec::new(), mismatch: None };
+  let l = layout.clone();
+  let res = catch_unwind(AssertUnwindSafe(|| run_one_device(&mut env, l)));
+  let status = match res { Err(_) => "panic".to_string(), Ok(Ok(())) => "ok".to_string(), Ok(Err(msg)) => format!("err:{}", hex(&msg)) };
+  let tol = env.max_gap + 2000;
+  println!("implementation now: {} calls, status {}", env.calls.len(), status);
+  println!("calls: {}", env.calls.join(";"));
+  if let Some(m) = &env.mismatch { println!("{}", m); }
+  let mut lean = Lean::start();
+  lean.expect(1, 0, format!("L {}", fmt::layout(&layout)), "wf".to_string());
+  let script = if env.script.is_empty() { "-".to_string() } else { env.script.join(",") };
+  let calls = if env.calls.is_empty() { "-".to_string() } else { env.calls.join(";") };
+  lean.expect(2, 0, format!("LOOPCHK {} {} {} {}", script, calls, status, tol), "ok".to_string());
+  lean.expect(3, 0, format!("LOOPMON {} {} {} {}", script, calls, status, tol), "ok".to_string());
+  let (n, ms) = lean.sync();
+  lean.finish();
+  let mut bad = 0;
+  if status == "panic" { println!("the loop panics"); bad += 1; }
+  for m in ms {
+    bad += 1;
+    if m.kind == 2 { println!("DIVERGENCE between loop model and implementation: {}", m.got); }
+    else if m.kind == 3 { println!("specification automaton: {}", m.got); }
+    else { println!("layout: {}", m.got); }
+  }
+  let _ = n;
+  if bad > 0 { println!("REPLAY: {} problem(s)", bad); 1 } else { println!("REPLAY: clean (the implementation's transcript on the recorded answers equals the model's and the automaton accepts it)"); 0 }
+}
